@@ -40,6 +40,7 @@ type Term struct {
 	decl  bool    // leaf (var/app) whose bounds are axioms to be asserted
 	bound bool    // bound variable of a quantifier
 	bvars []*Term // op "forall": the bound variables
+	pats  []*Term // op "forall": explicit trigger terms (optional)
 	hasBV int8    // 0 unknown, 1 no, 2 yes: contains a bound variable
 }
 
@@ -361,6 +362,45 @@ func Forall(body *Term) *Term {
 	t := &Term{op: "forall", args: []*Term{body}, sort: SBool, bvars: bv}
 	for _, v := range bv {
 		t.name += fmt.Sprintf(",%d", v.id)
+	}
+	r := TS.intern(t)
+	r.hasBV = 1
+	return r
+}
+
+// ForallNoShift closes body over its bound variables without re-indexing.
+func ForallNoShift(body *Term) *Term { return forallRaw(body, nil) }
+
+// ForallPat: like ForallNoShift with explicit trigger terms.
+func ForallPat(body *Term, pats ...*Term) *Term { return forallRaw(body, pats) }
+
+func forallRaw(body *Term, pats []*Term) *Term {
+	if body.op == "forall" {
+		return body
+	}
+	var bv []*Term
+	collectBound(body, map[int]bool{}, &bv)
+	if len(bv) == 0 {
+		return body
+	}
+	var guards []*Term
+	for _, v := range bv {
+		if v.lo != nil {
+			guards = append(guards, TS.intern(&Term{op: "<=", args: []*Term{IntB(v.lo), v}, sort: SBool}))
+		}
+		if v.hi != nil {
+			guards = append(guards, TS.intern(&Term{op: "<=", args: []*Term{v, IntB(v.hi)}, sort: SBool}))
+		}
+	}
+	if len(guards) > 0 {
+		body = Implies(And(guards...), body)
+	}
+	t := &Term{op: "forall", args: []*Term{body}, sort: SBool, bvars: bv, pats: pats}
+	for _, v := range bv {
+		t.name += fmt.Sprintf(",%d", v.id)
+	}
+	for _, q := range pats {
+		t.name += fmt.Sprintf(";p%d", q.id)
 	}
 	r := TS.intern(t)
 	r.hasBV = 1
@@ -1408,7 +1448,17 @@ func (t *Term) write(sb *strings.Builder, named map[int]string) {
 			sb.WriteString("(" + v.name + " Int)")
 		}
 		sb.WriteString(") ")
+		if len(t.pats) > 0 {
+			sb.WriteString("(! ")
+		}
 		t.args[0].write(sb, named)
+		if len(t.pats) > 0 {
+			sb.WriteString(" :pattern (")
+			for _, q := range t.pats {
+				q.write(sb, named)
+			}
+			sb.WriteString("))")
+		}
 		sb.WriteByte(')')
 	default:
 		op := t.op
